@@ -106,6 +106,9 @@ pub struct Driver {
     /// C04 mode: a state/outcome divergence from the model does not stop the run; the model is
     /// re-based on what the log shows so that the model-independent position monitor keeps watching
     pub lenient: bool,
+    /// with `lenient`: also keep going after a call returned an I/O error (C17: a foreign entry that occupies
+    /// the next WAL name makes the roll-over fail; what the *following* calls touch is what matters)
+    pub lenient_io: bool,
     /// keep the observation after every step (metamorphic engines)
     pub keep_obs: bool,
     pub obs_log: Vec<Option<Obs>>,
@@ -144,6 +147,7 @@ impl Driver {
             probe_seed: case.probe_seed,
             light: false,
             lenient: false,
+            lenient_io: false,
             keep_obs: false,
             obs_log: Vec::new(),
             hw: BTreeMap::new(),
@@ -175,6 +179,7 @@ impl Driver {
             probe_seed,
             light: false,
             lenient: false,
+            lenient_io: false,
             keep_obs: false,
             obs_log: Vec::new(),
             hw: BTreeMap::new(),
@@ -209,6 +214,7 @@ impl Driver {
             probe_seed,
             light: false,
             lenient: false,
+            lenient_io: false,
             keep_obs: false,
             obs_log: Vec::new(),
             hw: BTreeMap::new(),
@@ -311,7 +317,8 @@ impl Driver {
             let failures_before = self.failures.len();
             self.c13_no_trace(idx, eff_start, eff_end, open_start, &op, &outcome, &expected);
             self.c17_names(idx, eff_start, eff_end);
-            if self.lenient && !matches!(outcome, Outcome::Err(ErrKind::Panic) | Outcome::Err(ErrKind::Hang) | Outcome::Err(ErrKind::Io) | Outcome::Err(ErrKind::Corruption)) && self.world.log.is_some() {
+            let io_ok = self.lenient_io && matches!(outcome, Outcome::Err(ErrKind::Io)) && !matches!(op, Op::Restart { .. });
+            if self.lenient && (io_ok || !matches!(outcome, Outcome::Err(ErrKind::Panic) | Outcome::Err(ErrKind::Hang) | Outcome::Err(ErrKind::Io) | Outcome::Err(ErrKind::Corruption))) && self.world.log.is_some() {
                 // keep the position monitor running on what the log actually does
                 self.c04_monitor(idx, &op, &outcome, model_before_nonempty_all_gone);
                 if let Ok(obs) = self.world.observe() {
